@@ -35,7 +35,8 @@ def gen_case(rng):
     k = 0
     for nm in atoms[0]:
         k += 1
-        lines.append('%s 1 %.3f %.3f %.3f 11.0 0.04' % (nm, 0.1 * k, 0.2, 0.3))
+        # fixed coordinates (10 + x) and fixed negative ones (10 - 0.25 = 9.75) are atoms like the others; no random draw
+        lines.append('%s 1 %.3f %s %.3f 11.0 0.04' % (nm, 0.1 * k, ('0.200', '9.750', '10.200')[k % 3], 0.3))
     for num, cls in residues:
         form = rng.random()
         if cls and form < 0.25:
